@@ -489,3 +489,114 @@ func intWidth(t types.Type) (signed bool, bits int, ok bool) {
 	}
 	return false, 0, false
 }
+
+// c14FlushOnPush: a port handler does one Read and reports what it returned. Socket.Read parks until flush() signals it,
+// so the moment of the flush decides what the event contains: text that was not pushed stays in the ring until a
+// segment with PSH (or the FIN) arrives, and the single Read then returns everything up to and including the first
+// pushed segment. Every flush() in the segment handler therefore sits under a test that the segment carries PSH or FIN.
+// A test that is true for every segment (e.g. `Ctrl&PSH|FIN != 0`, which groups as (Ctrl&PSH)|FIN) wakes the handler
+// on the first, unpushed segment: the payload ends before the first pushed segment.
+func c14FlushOnPush(c *Ctx, htcp *ssa.Function) {
+	p := c.P
+	const rule = "flush-on-push-or-fin"
+	const fin, psh = 1, 8
+	// the flag constants by name, where the package still calls them that
+	if pk := p.Pkg(canaryRel + "/tcp"); pk != nil {
+		for name, want := range map[string]int64{"FIN": fin, "PSH": psh} {
+			if k, ok := pk.Members[name].(*ssa.NamedConst); ok {
+				if v, isInt := ConstInt(k.Value); isInt && v != want {
+					c.Undecided(rule, "flag constant "+name, p.Pos(k.Pos()), fmt.Sprintf("tcp.%s is %d, the rule assumes %d", name, v, want))
+					return
+				}
+			}
+		}
+	}
+	isCtrl := func(v ssa.Value) bool {
+		ld, ok := v.(*ssa.UnOp)
+		if !ok {
+			return false
+		}
+		fa, ok := ld.X.(*ssa.FieldAddr)
+		return ok && fieldNameOf(fa) == "Ctrl"
+	}
+	// carries: the condition (with the polarity it holds at) implies that PSH or FIN is set in the segment
+	carries := func(dc Cond) bool {
+		atom, pol0 := condAtom(dc.V)
+		pol := pol0 == dc.Pol
+		switch x := atom.(type) {
+		case *ssa.Call: // hdr.HasFlag(mask): all bits of mask set
+			if f := x.Call.StaticCallee(); f != nil && f.Name() == "HasFlag" && len(x.Call.Args) == 2 {
+				m, ok := ConstInt(x.Call.Args[1])
+				return ok && pol && m&(fin|psh) != 0
+			}
+		case *ssa.BinOp:
+			if x.Op != token.EQL && x.Op != token.NEQ {
+				return false
+			}
+			and, ok := x.X.(*ssa.BinOp)
+			k, okK := ConstInt(x.Y)
+			if !ok || !okK || and.Op != token.AND || !isCtrl(and.X) {
+				return false
+			}
+			m, okM := ConstInt(and.Y)
+			if !okM || m <= 0 {
+				return false
+			}
+			holdsEq := (x.Op == token.EQL) == pol // the comparison `Ctrl&m == k` holds
+			switch {
+			case k == m && holdsEq: // all bits of m set
+				return m&(fin|psh) != 0
+			case k == 0 && !holdsEq: // some bit of m set
+				return m&^(fin|psh) == 0
+			}
+		}
+		return false
+	}
+	// the segment handler and the helpers of the listener it hands the segment to (not the socket's own methods)
+	scope := []*ssa.Function{htcp}
+	seenFn := map[*ssa.Function]bool{htcp: true}
+	for i := 0; i < len(scope) && i < 40; i++ {
+		for _, call := range Calls(scope[i]) {
+			hf := call.Common().StaticCallee()
+			if hf == nil || seenFn[hf] || !InRepo(hf) || hf.Blocks == nil || PkgOf(hf) != ModPath+"/"+canaryRel {
+				continue
+			}
+			if _, isGo := call.(*ssa.Go); isGo {
+				continue
+			}
+			if r := hf.Signature.Recv(); r != nil {
+				if n := NamedOf(r.Type()); n == nil || n.Obj().Name() != "Canary" {
+					continue
+				}
+			}
+			seenFn[hf] = true
+			scope = append(scope, hf)
+		}
+	}
+	var sites []ssa.CallInstruction
+	for _, fn := range scope {
+		for _, call := range Calls(fn) {
+			sites = append(sites, call)
+		}
+	}
+	n := 0
+	for _, call := range sites {
+		f := call.Common().StaticCallee()
+		if f == nil || f.Name() != "flush" || PkgOf(f) != ModPath+"/"+canaryRel {
+			continue
+		}
+		if _, isDefer := call.(*ssa.Defer); isDefer {
+			continue
+		}
+		n++
+		ok := false
+		for _, dc := range DomConds(call) {
+			if carries(dc) {
+				ok = true
+			}
+		}
+		c.Check(ok, rule, fmt.Sprintf("%s flush #%d", shortFn(call.Parent()), n), p.InstrPos(call), "the handler is woken only by a segment that carries PSH or FIN",
+			"this flush() is not under a test that the segment carries PSH or FIN (conditions on the way: "+fmt.Sprint(RenderConds(DomConds(call)))+"): the parked port handler is released by segments that were not pushed, its single Read returns the text so far and the reported payload ends before the client's first pushed segment")
+	}
+	c.Floor(rule, 2, "the PSH flush and the FIN flush of handleTCP")
+}
